@@ -17,8 +17,9 @@
       every member; a rejected entry is skipped, the loop continues);
     - system/mempool/check.go checkTxs / checkTx (every member: address check,
       then the ungated blacklist check);
-    - system/mempool/eventprocess.go eventAddDelayTx / addDelayTx (ungated check
-      of the delayed transaction itself; a group head's members are not read).
+    - system/mempool/eventprocess.go eventAddDelayTx / addDelayTx ->
+      checkDelayTxBlocked (ungated check of the delayed transaction itself and,
+      when it is a group head, of every member of the decoded group).
 
     Abstracted (facts supplied with every case, the theorems quantify over
     them): the sender string (Transaction.From: public key -> address), the
@@ -341,10 +342,14 @@ Section Points.
   Definition pool_rejects (b : bundle) : bool :=
     negb (reply_eqb (pool_reply b ROk) ROk).
 
-  (* eventAddDelayTx / addDelayTx: the delayed transaction itself *)
+  (* eventAddDelayTx / addDelayTx -> checkDelayTxBlocked: the delayed
+     transaction itself (for a group: the wrapper = the head), then every
+     member of its group with the check of the pool's checkTx *)
   Definition delay_rejects (b : bundle) : bool :=
     match head b with
-    | Some t => chk_imm cks set t
+    | Some t =>
+        chk_imm cks set t ||
+        match b with BSingle _ _ => false | BGroup ts => chk_txs_imm cks set ts end
     | None => false
     end.
   Definition delay_reply (b : bundle) (base : reply) : reply :=
